@@ -27,6 +27,7 @@ RULE = RULE + '; one play in three reads the card / rankings / trial list after 
 ASSUMPTIONS = ['jump-off continuations stay inside the rule-conforming sub-domain the property names (every live participant '
                'attempts or retires at each jump-off height before the bar moves; no pass in a jump-off)']
 RULE = RULE + '; one play in four hands the bar heights over as floats on 1 cm steps'
+RULE = RULE + '; the decided card re-imported with its order column as numbers and as an all-text CSV card gives the same competition'
 
 BIBS = ['A', 'B', 'C', 'D']
 CELLS = ['o', 'xo', 'xxo', 'xxx', '-', 'x-', 'xx-', 'r', 'xr', 'xxr', '', 'x', 'xx']
@@ -331,6 +332,19 @@ def reimport_check(p):
             ref = pl
         elif pl != ref:
             out.append(V('places-from-cards', ['places', 're-import-differs', 'dressed-headers'], dict(case0(p), reimport=True), pl, ref))
+    # the same card with its jumping-order column, once as the export has it and once as a CSV reader hands it over (every
+    # cell text, the order included): the same competition, the same placings
+    mo = _call(p.c.to_matrix, ['order', 'bib', 'highest_cleared'])
+    if mo[0] == 'ret' and all(isinstance(row[0], int) or row[0] in ('DNS', 'DQ') for row in mo[1][1:]):
+        ordered = [list(row) for row in mo[1]]
+        text = [['' if x is None else str(x) for x in row] for row in mo[1]]
+        ro = _call(HighJumpCompetition.from_matrix, ordered)
+        if ro[0] == 'ret':
+            rt = _call(HighJumpCompetition.from_matrix, text)
+            want = (ro[1].state, {str(j.bib): (j.place, tuple(j.attempts_by_height)) for j in ro[1].jumpers})
+            got = (rt[1].state, {str(j.bib): (j.place, tuple(j.attempts_by_height)) for j in rt[1].jumpers}) if rt[0] == 'ret' else rt[:2]
+            if got != want:
+                out.append(V('places-from-cards', ['places', 're-import-differs', 'all-text-card'], dict(case0(p), reimport=True), got, want))
     return out
 
 
